@@ -1,2 +1,5 @@
 -- property theorems (one file per property) and their helper lemmas
 import FtProofs.Props.C02
+import FtProofs.Props.C17
+import FtProofs.CandGraphLemmas
+import FtProofs.Props.C18
